@@ -111,6 +111,25 @@ def one(ctx, config, rng, alt, value, minv, exp, min_bits, blind, msglen, extral
     if inf is not None: ctx.check(inf.ret == 1 and (inf.i(3), inf.i(4)) == (lo, hi), "rangeproof_info:range_differs_from_verify", "%r vs [%d,%d]" % (inf, lo, hi), config)
     em = rp.verify(C, H, proof, extra)
     ctx.check(em == (lo, hi), "rangeproof_verify:own_proof_vs_model", "model=%s lib=[%d,%d]" % (em, lo, hi), config)
+    # a message crafted from this very proof: for a message-less proof the s value of a forged ring member IS the key-stream block that
+    # is XORed with the corresponding 32-byte message chunk, so embedding that block makes the member's s exactly 0.  Creation must
+    # either refuse or still produce a proof that verifies (never a proof its own verifier rejects).
+    if msglen == 0 and not getattr(ctx, "_c09_in_crafted", False) and rng.random() < 0.5:
+        h = rp.header(proof)
+        if h and h[2]:
+            off, exp_h, mant_h, scale_h, min_h, max_h = h
+            rsz = rp.layout(mant_h); rings = len(rsz); vdig = (value - min_h) // scale_h
+            soff = off + ((rings + 6) >> 3) + 32 * (rings - 1) + 32
+            cands = [(i, j) for i in range(rings - 1) for j in range(rsz[i]) if j != ((vdig >> (2 * i)) & 3)]
+            if cands and soff + 32 * sum(rsz) == len(proof):
+                i, j = rng.choice(cands); flat = sum(rsz[:i]) + j; blk = proof[soff + 32 * flat:soff + 32 * flat + 32]
+                k = 4 * i + j; cm = bytes(32 * k) + blk
+                rc = ctx.call("rangeproof_sign", 5134, minv, Co, b32(blind), nonce, exp, min_bits, value, cm, extra or None, Ho, config=config)
+                if rc is not None:
+                    ctx.ev("rangeproof_sign", "message_crafted_to_zero_a_ring_scalar:%s" % ("refused" if rc.ret == 0 else "signed"), True, proof[:40], k)
+                    if rc.ret == 1:
+                        pc = rc.b(2)[:rc.i(1)]; vc = ctx.call("rangeproof_verify", Co, pc, extra or None, Ho, config=config)
+                        if vc is not None: ctx.check(vc.ret == 1, "rangeproof_sign:own_proof_rejected_by_verify", det + " message crafted from the key stream of slot (%d,%d)" % (i, j), config)
     # rewind with the creator's nonce
     rw = ctx.call("rangeproof_rewind", 7, 4096, nonce, Co, proof, extra or None, Ho, config=config)
     if rw is None: return
